@@ -48,6 +48,15 @@ def run(ctx):
                 o["size"] = 77
             inp = {"family": "text" if hi % 2 else "blockmix", "len": total, "seed": hi % 50, "p1": B}
             wcases.append({"id": len(wcases) + 1, "input": inp, "opts": o, "calls": calls, "hist": hi})
+    # re-configuration after Reset (the enumerated sequences re-apply the same options): a first life with another block
+    # size that cuts no block, Reset with or without Close, Apply(block size 64 KiB), then a life that cuts blocks
+    for i, (b1, pre, closed) in enumerate([(b1, pre, cl) for b1 in (5, 6, 7) for pre in (0, 1, 100, 65535) for cl in (False, True)]):
+        for conc in (1, 4):
+            first = ([{"op": "write", "n": pre}] if pre else []) + ([{"op": "close"}] if closed else [])
+            calls = first + [{"op": "reset"}, {"op": "apply", "n": 4}, {"op": "write", "n": B + 5}, {"op": "flush"}, {"op": "write", "n": 2 * B}, {"op": "close"}]
+            o = {"code": b1, "bcs": i % 2 == 0, "ccs": True, "level": 0, "conc": conc, "legacy": False, "handler": False}
+            wcases.append({"id": len(wcases) + 1, "input": {"family": "text", "len": pre + 3 * B + 5, "seed": i}, "opts": o, "calls": calls, "hist": -1,
+                           "reconf": True})
     wrecs, faults = fl.shard_run(b, "frame-write", wcases, d, "w", extra=("--watchdog", "30s"))
     if faults:
         raise vlib.MachineryFault("frame-write failed: %s" % faults[0]["stderr"][-800:])
@@ -57,6 +66,13 @@ def run(ctx):
     ctx.evaluations += len(wrecs)
     ctx.distinct += len(wcases)
     by_w = {c["id"]: c for c in wcases}
+    for c in wcases:
+        if c.get("reconf"):
+            w = wrecs[c["id"]]
+            flg, bd, cs = fl.descriptor_of(w["opts"])
+            w["expdesc"] = [[flg, 16 * c["opts"]["code"], cs], [flg, 64, cs]]      # first life: original block size; second: 64 KiB
+            w["block"] = B
+            w["opts"]["code"] = 4
     for rj in fl.validate_writer_runs(ctx, [wrecs[c["id"]] for c in wcases], d, max_reject=6):
         rec = json.loads(rj["line"])
         c = by_w[rec["case"]]
